@@ -201,7 +201,15 @@ async fn append(
 }
 
 async fn spawn(engine: nu::Engine, store: Store, task: GeneratorTask) {
-    let start = append(store.clone(), &task, "start", None).await.unwrap();
+    // The start frame is refused when the generator's context is not registered (any more): the
+    // generator cannot run, but that must not take the whole generator service down with it.
+    let start = match append(store.clone(), &task, "start", None).await {
+        Ok(frame) => frame,
+        Err(e) => {
+            tracing::error!("Cannot start generator {}: {}", task.topic, e);
+            return;
+        }
+    };
 
     use futures::StreamExt;
     use tokio_stream::wrappers::ReceiverStream;
